@@ -142,6 +142,38 @@ impl WorkerOut {
         let _ = std::fs::write(&path, serde_json::to_string_pretty(&r).unwrap());
         self.violations.push(json!({"clause": clause, "sig": sig, "detail": detail, "replay": path}));
     }
+    /// intermediate state of a worker that may be killed by its subject (process abort): everything found so far
+    pub fn save_state(&self, path: &str) {
+        let v = json!({
+            "counters": self.counters,
+            "flags": self.flags,
+            "samples": self.samples,
+            "violations": self.violations,
+            "outcomes": self.outcomes.iter().take(2000).collect::<Vec<_>>(),
+        });
+        let tmp = format!("{}.tmp", path);
+        if std::fs::write(&tmp, serde_json::to_string(&v).unwrap()).is_ok() {
+            let _ = std::fs::rename(&tmp, path);
+        }
+    }
+    pub fn load_state(path: &str) -> Option<WorkerOut> {
+        let v: Value = serde_json::from_str(&std::fs::read_to_string(path).ok()?).ok()?;
+        let mut o = WorkerOut::default();
+        for (k, x) in v["counters"].as_object()? {
+            o.counters.insert(k.clone(), x.as_u64().unwrap_or(0));
+        }
+        for (k, x) in v["flags"].as_object()? {
+            o.flags.insert(k.clone(), x.as_bool().unwrap_or(false));
+        }
+        o.samples = v["samples"].as_array().cloned().unwrap_or_default();
+        o.violations = v["violations"].as_array().cloned().unwrap_or_default();
+        for x in v["outcomes"].as_array().cloned().unwrap_or_default() {
+            if let Some(s) = x.as_str() {
+                o.outcomes.insert(s.to_string());
+            }
+        }
+        Some(o)
+    }
     pub fn write(&self, ctx: &Ctx) {
         let v = json!({
             "done": true,
